@@ -330,15 +330,19 @@ def parseXmlDecl (s : Str) : Option XTok :=
             | some x => if x = ['y', 'e', 's'] then 1 else 0
           some (.xmlDecl v (lookupPseudo ['e', 'n', 'c', 'o', 'd', 'i', 'n', 'g'] ps) sa)
 
+/-- the default namespace of an element: its own `xmlns` declaration, else the enclosing one -/
+def dfltNs (scope : List Str) (a : List (Str × Option Str)) : Str :=
+  match lookupAttr xmlnsName a with
+  | some (some u) => u
+  | _ => scope.headD []
+
 /-- namespace resolution over the token list; `scope` = default namespaces of the open elements
     (innermost first).  Character data outside the root element is white space and is dropped. -/
 def xmlView : List Str → List Tok → Option (List XTok)
   | _, [] => some []
   | scope, .start n a sc :: rest =>
       if n.any (· == ':') then none else
-      let dflt : Str := match lookupAttr xmlnsName a with
-        | some (some u) => u
-        | _ => scope.headD []
+      let dflt : Str := dfltNs scope a
       match resolveAttrs a with
       | none => none
       | some ra =>
